@@ -2,11 +2,12 @@
 resource tracker) through real ``Parallel`` calls with numpy arrays large enough to be memmapped.
 Interpreter: python3-vt (numpy) with PYTHONPATH = repo under test.
 
-usage: c20_parallel_np.py <scratch> normal|kill|kill-werror      -> one JSON line on stdout
+usage: c20_parallel_np.py <scratch> normal|kill|kill-rel|kill-werror      -> one JSON line on stdout
 
 normal: two calls inside one ``with Parallel`` block, then a normal interpreter exit.
 kill  : the tasks block; the parent process is SIGKILLed in the middle of the call, then (loky workers
         outlive their parent until their idle timeout and keep the tracker pipe open) both workers.
+kill-rel: as kill, with JOBLIB_TEMP_FOLDER given as a relative name and the tracker started under another cwd.
 kill-werror: the same with ``python -W error`` (inherited by the tracker): known finding F18b.
 Observed: the workers see an existing memmap file under JOBLIB_TEMP_FOLDER while the call runs;
 after the parent is gone (and its workers and tracker have ended) nothing is left there.
@@ -39,6 +40,11 @@ def task(a, i, block):
             time.sleep(0.01)
     return float(a.sum()) + i
 
+if mode == "kill-rel":
+    # the tracker is started while the cwd is A; JOBLIB_TEMP_FOLDER is the relative name "tmp" (below the parent)
+    os.chdir("A")
+    _resource_tracker.ensure_running()
+    os.chdir("..")
 a = np.ones(30000)
 with joblib.Parallel(n_jobs=2, max_nbytes=1000) as p:
     out1 = p(joblib.delayed(task)(a, i, mode.startswith("kill")) for i in range(4))
@@ -63,7 +69,8 @@ def main():
     flags = os.path.join(base, "flags")
     os.makedirs(tmpf)
     os.makedirs(flags)
-    env = dict(os.environ, JOBLIB_TEMP_FOLDER=tmpf)
+    os.makedirs(os.path.join(base, "A"))
+    env = dict(os.environ, JOBLIB_TEMP_FOLDER="tmp" if mode == "kill-rel" else tmpf)
     errf = open(os.path.join(base, "stderr"), "wb")
     wflags = ["-W", "error"] if mode == "kill-werror" else []
     p = subprocess.Popen([sys.executable] + wflags + ["-c", WORKLOAD, flags, mode], env=env, stdout=subprocess.PIPE, stderr=errf,
